@@ -191,7 +191,7 @@ impl<'a> Gen<'a> {
         }
         let o = self.ovh + kh;
         let max = snap.max;
-        let free = max.saturating_sub(snap.cur) + replacing.unwrap_or(0);
+        let free = max.saturating_sub(snap.cur).saturating_add(replacing.unwrap_or(0));
         let lru = snap.ord.first().map(|e| e.esize).unwrap_or(0);
         let lru2 = snap.ord.get(1).map(|e| e.esize).unwrap_or(0);
         let cands: [Option<usize>; 10] = [
